@@ -24,5 +24,10 @@ def obligations(tier):
               encodes=[S + 'sequence.extractors:BaseIpExtractor.extract', S + 'sequence.parsers:BaseIpParser.parse']),
            Ob('O13.4-canonical-value', 'xh', 'harness.C13:h_drop_leading_zeros', timeout=t,
               descr='drop_leading_zeros keeps the number of every group and removes superfluous zeros', bounds='two symbolic groups of 1..3 ASCII digits (all 1110^2 combinations)',
-              encodes=[S + 'sequence.parsers:BaseIpParser.drop_leading_zeros'], engine='CrossHair symbolic execution (symbolic str), z3 per path')]
+              encodes=[S + 'sequence.parsers:BaseIpParser.drop_leading_zeros'], engine='CrossHair symbolic execution (symbolic str), z3 per path'),
+           Ob('O13.4-canonical-group', 'xh', 'harness.C13:h_drop_zeros_group', slices=[{'pos': p, 'sep': sp, 'glen': (3 if tier == 'quick' or sp == '.' else 4)} for sp in ('.', ':') for p in (0, 1, 3)], timeout=max(t, 240),
+              descr='one symbolic group in first / inner / LAST position of an IPv4 (1..3 digits) or IPv6 (1..4 hex digits) text: same number, no superfluous zero, "0" for an all-zero group, '
+                    'the other groups and the separators untouched (the end-of-text branch of the function is separate code)',
+              bounds='every group string over the digit alphabet up to 3 characters / the hex alphabet up to 3 (thorough 4) characters', encodes=[S + 'sequence.parsers:BaseIpParser.drop_leading_zeros'],
+              engine='CrossHair symbolic execution (symbolic str), z3 per path')]
     return obs
